@@ -8,6 +8,13 @@ export CARGO_NET_OFFLINE=true CARGO_BUILD_JOBS=8
 git -C /repo worktree remove --force $WT 2>/dev/null
 git -C /repo worktree add -q --detach $WT HEAD || exit 2
 declare -A DEMO=(
+ [C09f_source_not_marked_signal_handling]="-p yash-builtin --test c09f_source_sigint"
+ [C14f_undo_redirs_first_to_last]="-p yash-semantics c14f"
+ [C08f_stop_ends_wait_requested_job_control]="-p yash-semantics --test c08f_stopped_subshell"
+ [C11f_wait_batch_marks_in_loop]="-p yash-builtin --test c11f_wait_two_traps"
+ [C10f_wait_trap_batch_keeps_last_result]="-p yash-builtin --test c10f_wait_trap_abort"
+ [C13f_pipeset_shift_keeps_old_reader]="-p yash-semantics --test c13f_pipeline_middle_exits_early"
+ [C12f_announced_job_number_is_len]="-p yash-semantics --test c12f_async_job_number"
  [C20e_set_short_after_long]="-p yash-builtin --test c20e_set_mixed_option_styles"
  [C18e_stop_counts_as_done]="-p yash-env -p yash-semantics c18e"
  [C19e_pipe_emfile_leaks_reader]="-p yash-env -p yash-semantics c19e"
